@@ -429,6 +429,12 @@ def compare(op, a, b):
         elif (isinstance(a, ConstV) and isinstance(a.py, bool) and not isinstance(b, (BoolV, ConstV))) or \
                 (isinstance(b, ConstV) and isinstance(b.py, bool) and not isinstance(a, (BoolV, ConstV))):
             r = z3.BoolVal(False)          # `x is True` for a non-bool x
+        elif (isinstance(a, IntV) and isinstance(b, BoolV)) or (isinstance(a, BoolV) and isinstance(b, IntV)):
+            r = z3.BoolVal(False)          # an int is never the object True / False
+        elif isinstance(a, IntV) and isinstance(b, IntV) and \
+                any(const_of(x.t) is not None and -5 <= const_of(x.t) <= 256 for x in (a, b)):
+            # T10: CPython keeps the integers -5..256 as singletons, so identity with such a constant is equality
+            r = a.t == b.t
         else:
             raise Unsupported('`is` on %r, %r' % (a, b))
         return r if T is ast.Is else z3.Not(r)
